@@ -95,6 +95,41 @@ impl Prop for C02Prop {
         ]
     }
 
+    fn directed(&self, tier: Tier) -> Vec<Scenario> {
+        // every single link fault at every position of three base frames (then a second, intact frame)
+        use crate::scn::{Enc, WireFault};
+        let mut v = Vec::new();
+        let bases: [&[u8]; 3] = [&[0x12, 0x34, 0x56, 0x78], &[0x01, 0x1b, 0x1b, 0x1b, 0x1b, 0x02, 0x00, 0x00], &[0x1b, 0x00, 0x1b]];
+        let fes = [Fe::Push, Fe::Streaming, Fe::RdIter, Fe::RdIo, Fe::Decode, Fe::RdSlice];
+        let mut k = 0usize;
+        for b in bases {
+            let flen = refenc(b).len();
+            for at in 0..flen {
+                let mut faults: Vec<WireFault> = vec![WireFault::Del { at }, WireFault::Dup { at }];
+                for val in [0x00u8, 0x1b, 0x01, 0x1a] {
+                    faults.push(WireFault::Set { at, val });
+                    faults.push(WireFault::Ins { at, val });
+                }
+                let bits: &[u8] = if tier == Tier::Thorough { &[0, 1, 2, 3, 4, 5, 6, 7] } else { &[0, 3, 7] };
+                for bit in bits {
+                    faults.push(WireFault::Flip { at, bit: *bit });
+                }
+                for len in [1usize, 2, 3, 4] {
+                    faults.push(WireFault::DupChunk { from: at, len, to: at + len });
+                }
+                for w in faults {
+                    let fe = fes[k % fes.len()];
+                    k += 1;
+                    let mut l = LinkScn::new("C02", "directed-single-fault", fe, BufKind::Vec);
+                    l.segs.push(Seg::Frame { payload: crate::hexbytes::Hx(b.to_vec()), enc: Enc::Ref, faults: vec![w] });
+                    l.segs.push(Seg::Frame { payload: crate::hexbytes::Hx(vec![0xaa, 0xbb]), enc: Enc::Ref, faults: vec![] });
+                    v.push(Scenario::Link(l));
+                }
+            }
+        }
+        v
+    }
+
     fn gen(&self, rng: &mut Rng, tier: Tier) -> Scenario {
         let fe = *rng.pick(&[Fe::Push, Fe::Decode, Fe::Streaming, Fe::RdSlice, Fe::RdIter, Fe::RdIo, Fe::RdEh]);
         let mix = StreamMix::draw(rng, 400);
